@@ -179,6 +179,6 @@ def prop_bits(case):
     return Obs(dt.itemsize > 1 or w % 8 != 0, [case['dtype'], 'short' if w < tb else 'long' if w > tb else 'exact'])
 
 
-PARTS = [Part('bp', prop_bp, strategy=bp_cases, quick=(2, 600), thorough=(8, 6000)),
-         Part('strings', prop_str, strategy=str_cases, quick=(2, 500), thorough=(8, 5000)),
-         Part('bits', prop_bits, strategy=bits_cases, quick=(2, 500), thorough=(8, 5000))]
+PARTS = [Part('bp', prop_bp, strategy=bp_cases, quick=(2, 600), thorough=(8, 12000)),
+         Part('strings', prop_str, strategy=str_cases, quick=(2, 500), thorough=(8, 10000)),
+         Part('bits', prop_bits, strategy=bits_cases, quick=(2, 500), thorough=(8, 10000))]
